@@ -54,11 +54,38 @@ func c11SumCycles(r *lp.Run, rng *lp.Rand) {
 			}
 			schemas[fmt.Sprintf("N%d", j)] = M{lp.Pick(rng, kw): m}
 		}
+		// the place the graph is used from: a body, a parameter in each location (their style/type check walks
+		// the composition too), a response header, a response body, a parameter with `content`
+		n0 := M{"$ref": "#/components/schemas/N0"}
+		op := M{"operationId": "a", "responses": M{"200": M{"description": "ok"}}}
+		path := "/a"
+		place := []string{"request body", "query parameter", "header parameter", "path parameter", "cookie parameter", "response header", "response body", "content parameter", "deepObject parameter"}[i%9]
+		switch place {
+		case "request body":
+			op["requestBody"] = M{"content": M{"application/json": M{"schema": n0}}}
+		case "query parameter":
+			op["parameters"] = []any{M{"name": "q", "in": "query", "schema": n0}}
+		case "header parameter":
+			op["parameters"] = []any{M{"name": "X-Q", "in": "header", "schema": n0}}
+		case "path parameter":
+			path = "/a/{q}"
+			op["parameters"] = []any{M{"name": "q", "in": "path", "required": true, "schema": n0}}
+		case "cookie parameter":
+			op["parameters"] = []any{M{"name": "q", "in": "cookie", "schema": n0}}
+		case "response header":
+			op["responses"] = M{"200": M{"description": "ok", "headers": M{"X-R": M{"schema": n0}}}}
+		case "response body":
+			op["responses"] = M{"200": M{"description": "ok", "content": M{"application/json": M{"schema": n0}}}}
+		case "content parameter":
+			op["parameters"] = []any{M{"name": "q", "in": "query", "content": M{"application/json": M{"schema": n0}}}}
+		case "deepObject parameter":
+			op["parameters"] = []any{M{"name": "q", "in": "query", "style": "deepObject", "explode": true, "schema": n0}}
+		}
 		doc := M{"openapi": "3.0.3", "info": M{"title": "t", "version": "1"},
-			"paths":      M{"/a": M{"post": M{"operationId": "a", "requestBody": M{"content": M{"application/json": M{"schema": M{"$ref": "#/components/schemas/N0"}}}}, "responses": M{"200": M{"description": "ok"}}}}},
+			"paths":      M{path: M{"post": op}},
 			"components": M{"schemas": schemas}}
 		b, _ := json.Marshal(doc)
-		c11Judge(r, b, nil, fmt.Sprintf("composition graph %d (oneOf/anyOf/allOf with inline hops)", i))
+		c11Judge(r, b, nil, fmt.Sprintf("composition graph %d (oneOf/anyOf/allOf with inline hops) used from a %s", i, place))
 	}
 }
 
@@ -132,7 +159,9 @@ func c11Located(r *lp.Run) {
 		wantLine int    // its line (1-based), 0 = any line of that file
 	}
 	var scs []sc
-	for _, key := range []string{`"/pets?limit=10"`, `"//host/x"`, `"/a%zz"`, `"/a/{x"`, `"pets"`} {
+	// (the last four: the same faults in keys that also carry a valid but non-canonical escape — the key is
+	// looked up in the document as it is written there, not in its normal form)
+	for _, key := range []string{`"/pets?limit=10"`, `"//host/x"`, `"/a%zz"`, `"/a/{x"`, `"pets"`, `"/a%2fb/{x"`, `"/p%65ts?limit=10"`, `"/a%7e/{x/y}"`, `"/%41/{x"`} {
 		scs = append(scs, sc{"path key " + key + " whose path item is a $ref into another file", locFiles{"root.yml", map[string]string{"root.yml": rootFor(key), "items.yml": items}}, "root.yml", 10})
 	}
 	// faults inside the external file
@@ -196,4 +225,131 @@ func c11Located(r *lp.Run) {
 			r.Fail(lp.PropFail{Property: "C11", What: "the diagnostic does not point at the faulty node", Input: in, Observed: truncN(errText, 400), Expected: "a position " + want})
 		}
 	}
+}
+
+// keyed and enumerated positions of a document × hostile values: every position whose text selects a branch in
+// the parser or generator (response keys, media types, parameter location and style, schema type and format,
+// security scheme kind, server URL, header names, required / enum / default entries) is given every value of
+// a list that holds the boundary spellings of all of them; the outcome must be success or a diagnostic
+func c11Positions(r *lp.Run) {
+	values := []string{"", " ", "0XX", "-XX", "+XX", " XX", "*XX", "/XX", "6XX", "9XX", "XXX", "1xx", "2X", "2XXX", "XX2", "99", "099", "100", "600", "999", "1000", "-1", "+200", "2e2", "200 ", "0x10", "default", "Default", "default ",
+		"*/*", "application/*", "*/json", "application/json; charset=utf-8", "application/json;", ";", "/", "a/", "/b", "a/b/c", "text/plain", "multipart/form-data", "application/x-www-form-urlencoded", "application/octet-stream", "application/problem+json", "+json", "application/+json",
+		"query", "Query", "path", "header", "cookie", "body", "formData", "form", "simple", "matrix", "label", "spaceDelimited", "pipeDelimited", "deepObject", "deepobject",
+		"string", "integer", "number", "boolean", "array", "object", "null", "String", "int", "any", "file",
+		"int32", "int64", "uint8", "float", "double", "byte", "binary", "date", "date-time", "time", "duration", "uuid", "ipv4", "ipv6", "ip", "mac", "uri", "email", "hostname", "password", "unix", "unix-seconds", "unix-nano", "decimal", "regex", "int128", "x",
+		"apiKey", "http", "oauth2", "openIdConnect", "mutualTLS", "basic", "bearer", "digest", "Bearer", "BASIC",
+		"{", "}", "{}", "{x}", "{x", "x}", "{{x}}", "https://{host}/{base", "http://[::1", "%", "%zz", "a b", "é", "\x00", "a\nb", "Content-Type", "content-type", "Set-Cookie", "X-A B", "X-É", ":", "$ref", "#", "#/", "#/components/schemas/", "~", "~2"}
+	type pos struct {
+		name string
+		doc  func(v string) map[string]any
+	}
+	base := func(op map[string]any, comps map[string]any) map[string]any {
+		d := map[string]any{"openapi": "3.0.3", "info": map[string]any{"title": "t", "version": "1"}, "paths": map[string]any{"/a/{id}": map[string]any{"post": op}}}
+		if comps != nil {
+			d["components"] = comps
+		}
+		return d
+	}
+	okResp := func() map[string]any { return map[string]any{"200": map[string]any{"description": "ok"}} }
+	idParam := func() map[string]any {
+		return map[string]any{"name": "id", "in": "path", "required": true, "schema": map[string]any{"type": "string"}}
+	}
+	jsonOf := func(schema any) map[string]any {
+		return map[string]any{"application/json": map[string]any{"schema": schema}}
+	}
+	positions := []pos{
+		{"response key", func(v string) map[string]any {
+			return base(map[string]any{"operationId": "a", "parameters": []any{idParam()}, "responses": map[string]any{v: map[string]any{"description": "r", "content": jsonOf(map[string]any{"type": "string"})}, "200": map[string]any{"description": "ok"}}}, nil)
+		}},
+		{"only response key", func(v string) map[string]any {
+			return base(map[string]any{"operationId": "a", "parameters": []any{idParam()}, "responses": map[string]any{v: map[string]any{"description": "r"}}}, nil)
+		}},
+		{"request media type", func(v string) map[string]any {
+			return base(map[string]any{"operationId": "a", "parameters": []any{idParam()}, "requestBody": map[string]any{"content": map[string]any{v: map[string]any{"schema": map[string]any{"type": "string"}}}}, "responses": okResp()}, nil)
+		}},
+		{"response media type", func(v string) map[string]any {
+			return base(map[string]any{"operationId": "a", "parameters": []any{idParam()}, "responses": map[string]any{"200": map[string]any{"description": "r", "content": map[string]any{v: map[string]any{"schema": map[string]any{"type": "string"}}}}}}, nil)
+		}},
+		{"parameter in", func(v string) map[string]any {
+			return base(map[string]any{"operationId": "a", "parameters": []any{idParam(), map[string]any{"name": "q", "in": v, "schema": map[string]any{"type": "string"}}}, "responses": okResp()}, nil)
+		}},
+		{"parameter style", func(v string) map[string]any {
+			return base(map[string]any{"operationId": "a", "parameters": []any{idParam(), map[string]any{"name": "q", "in": "query", "style": v, "schema": map[string]any{"type": "array", "items": map[string]any{"type": "string"}}}}, "responses": okResp()}, nil)
+		}},
+		{"parameter name", func(v string) map[string]any {
+			return base(map[string]any{"operationId": "a", "parameters": []any{idParam(), map[string]any{"name": v, "in": "header", "schema": map[string]any{"type": "string"}}}, "responses": okResp()}, nil)
+		}},
+		{"schema type", func(v string) map[string]any {
+			return base(map[string]any{"operationId": "a", "parameters": []any{idParam()}, "requestBody": map[string]any{"content": jsonOf(map[string]any{"type": v})}, "responses": okResp()}, nil)
+		}},
+		{"string format", func(v string) map[string]any {
+			return base(map[string]any{"operationId": "a", "parameters": []any{idParam(), map[string]any{"name": "q", "in": "query", "schema": map[string]any{"type": "string", "format": v}}}, "requestBody": map[string]any{"content": jsonOf(map[string]any{"type": "object", "properties": map[string]any{"f": map[string]any{"type": "string", "format": v}}})}, "responses": okResp()}, nil)
+		}},
+		{"integer format", func(v string) map[string]any {
+			return base(map[string]any{"operationId": "a", "parameters": []any{idParam(), map[string]any{"name": "q", "in": "query", "schema": map[string]any{"type": "integer", "format": v}}}, "requestBody": map[string]any{"content": jsonOf(map[string]any{"type": "object", "properties": map[string]any{"f": map[string]any{"type": "integer", "format": v}}})}, "responses": okResp()}, nil)
+		}},
+		{"number format", func(v string) map[string]any {
+			return base(map[string]any{"operationId": "a", "parameters": []any{idParam()}, "requestBody": map[string]any{"content": jsonOf(map[string]any{"type": "object", "properties": map[string]any{"f": map[string]any{"type": "number", "format": v}}})}, "responses": okResp()}, nil)
+		}},
+		{"security scheme type", func(v string) map[string]any {
+			return base(map[string]any{"operationId": "a", "parameters": []any{idParam()}, "security": []any{map[string]any{"s": []any{}}}, "responses": okResp()}, map[string]any{"securitySchemes": map[string]any{"s": map[string]any{"type": v, "name": "k", "in": "header", "scheme": "bearer", "openIdConnectUrl": "https://x/y", "flows": map[string]any{}}}})
+		}},
+		{"http scheme", func(v string) map[string]any {
+			return base(map[string]any{"operationId": "a", "parameters": []any{idParam()}, "security": []any{map[string]any{"s": []any{}}}, "responses": okResp()}, map[string]any{"securitySchemes": map[string]any{"s": map[string]any{"type": "http", "scheme": v}}})
+		}},
+		{"apiKey in", func(v string) map[string]any {
+			return base(map[string]any{"operationId": "a", "parameters": []any{idParam()}, "security": []any{map[string]any{"s": []any{}}}, "responses": okResp()}, map[string]any{"securitySchemes": map[string]any{"s": map[string]any{"type": "apiKey", "name": "k", "in": v}}})
+		}},
+		{"apiKey name", func(v string) map[string]any {
+			return base(map[string]any{"operationId": "a", "parameters": []any{idParam()}, "security": []any{map[string]any{"s": []any{}}}, "responses": okResp()}, map[string]any{"securitySchemes": map[string]any{"s": map[string]any{"type": "apiKey", "name": v, "in": "cookie"}}})
+		}},
+		{"server url", func(v string) map[string]any {
+			d := base(map[string]any{"operationId": "a", "parameters": []any{idParam()}, "responses": okResp()}, nil)
+			d["servers"] = []any{map[string]any{"url": v, "variables": map[string]any{"host": map[string]any{"default": "h"}}}}
+			return d
+		}},
+		{"response header name", func(v string) map[string]any {
+			return base(map[string]any{"operationId": "a", "parameters": []any{idParam()}, "responses": map[string]any{"200": map[string]any{"description": "r", "headers": map[string]any{v: map[string]any{"schema": map[string]any{"type": "string"}}}}}}, nil)
+		}},
+		{"required entry", func(v string) map[string]any {
+			return base(map[string]any{"operationId": "a", "parameters": []any{idParam()}, "requestBody": map[string]any{"content": jsonOf(map[string]any{"type": "object", "required": []any{v}, "properties": map[string]any{"f": map[string]any{"type": "string"}}})}, "responses": okResp()}, nil)
+		}},
+		{"enum entry and default", func(v string) map[string]any {
+			return base(map[string]any{"operationId": "a", "parameters": []any{idParam(), map[string]any{"name": "q", "in": "query", "schema": map[string]any{"type": "string", "enum": []any{v, "z"}, "default": v}}}, "responses": okResp()}, nil)
+		}},
+		{"integer default given as text", func(v string) map[string]any {
+			return base(map[string]any{"operationId": "a", "parameters": []any{idParam(), map[string]any{"name": "q", "in": "query", "schema": map[string]any{"type": "integer", "default": v}}}, "responses": okResp()}, nil)
+		}},
+		{"discriminator mapping target", func(v string) map[string]any {
+			return base(map[string]any{"operationId": "a", "parameters": []any{idParam()}, "requestBody": map[string]any{"content": jsonOf(map[string]any{"oneOf": []any{map[string]any{"$ref": "#/components/schemas/A"}, map[string]any{"$ref": "#/components/schemas/B"}}, "discriminator": map[string]any{"propertyName": "k", "mapping": map[string]any{"a": v, "b": "#/components/schemas/B"}}})}, "responses": okResp()},
+				map[string]any{"schemas": map[string]any{"A": map[string]any{"type": "object", "required": []any{"k"}, "properties": map[string]any{"k": map[string]any{"type": "string"}}}, "B": map[string]any{"type": "object", "required": []any{"k"}, "properties": map[string]any{"k": map[string]any{"type": "string"}, "n": map[string]any{"type": "integer"}}}}})
+		}},
+		{"$ref target", func(v string) map[string]any {
+			return base(map[string]any{"operationId": "a", "parameters": []any{idParam()}, "requestBody": map[string]any{"content": jsonOf(map[string]any{"$ref": v})}, "responses": okResp()}, map[string]any{"schemas": map[string]any{"A": map[string]any{"type": "string"}}})
+		}},
+		{"operationId", func(v string) map[string]any {
+			return base(map[string]any{"operationId": v, "parameters": []any{idParam()}, "responses": okResp()}, nil)
+		}},
+		{"path parameter name", func(v string) map[string]any {
+			d := map[string]any{"openapi": "3.0.3", "info": map[string]any{"title": "t", "version": "1"}, "paths": map[string]any{"/a/{" + v + "}": map[string]any{"get": map[string]any{"operationId": "a", "parameters": []any{map[string]any{"name": v, "in": "path", "required": true, "schema": map[string]any{"type": "string"}}}, "responses": okResp()}}}}
+			return d
+		}},
+	}
+	n := 0
+	for _, p := range positions {
+		for _, v := range values {
+			b, err := json.Marshal(p.doc(v))
+			if err != nil {
+				continue
+			}
+			var twin []byte
+			if hasControl(v) {
+				twin, _ = json.Marshal(p.doc(stripControl(v)))
+			}
+			c11Judge(r, b, twin, fmt.Sprintf("position %q = %q", p.name, v))
+			n++
+		}
+	}
+	c11Flush(r)
+	r.Exhaustive("keyed / enumerated positions × hostile values", fmt.Sprintf("%d positions × %d values = %d documents", len(positions), len(values), n))
 }
